@@ -93,6 +93,15 @@ func driveQUIC(rg *rand.Rand, ccfg *tls.Config, spec *tls.ClientHelloSpec, scfg 
 	run := &quicRun{cli: newSide("client"), srv: newSide("server"), cancelledAt: -1}
 	ctx, cancel := context.WithCancel(context.Background())
 	defer cancel()
+	if cancelAt == 0 {
+		cancel() // the context is already done when Start is called
+		run.cancelledAt = 0
+	} else if cancelAt == -2 {
+		var c2 context.CancelFunc
+		ctx, c2 = context.WithDeadline(context.Background(), time.Now().Add(-time.Second))
+		defer c2()
+		run.cancelledAt = 0
+	}
 	q := tls.UQUICClient(&tls.QUICConfig{TLSConfig: ccfg}, tls.HelloCustom)
 	if err := q.ApplyPreset(spec); err != nil {
 		run.startErr = fmt.Errorf("ApplyPreset: %w", err)
@@ -224,10 +233,11 @@ func driveQUIC(rg *rand.Rand, ccfg *tls.Config, spec *tls.ClientHelloSpec, scfg 
 
 // C23 — QUIC clients complete the handshake through the event API and never hang.
 func TestC23(t *testing.T) {
-	r := mon.New("C23", "generated TLS 1.3-only QUIC ClientHello specs (quic_transport_parameters incl. GREASE parameters) x QUIC server configs (incl. HelloRetryRequest) x PRNG-chosen event-pump orders and CRYPTO fragmentation x failure injections (unbuildable config: no ServerName, empty PSK without OmitEmptyPsk, two padding extensions; server alert; context cancelled at a random step): trace specification over the NextEvent streams of both sides; every Start/HandleData/Close runs in its own goroutine and must return within 10 s. Race detector on. distinct = event-order signatures")
+	r := mon.New("C23", "generated TLS 1.3-only QUIC ClientHello specs (quic_transport_parameters incl. GREASE parameters) x QUIC server configs (incl. HelloRetryRequest) x PRNG-chosen event-pump orders and CRYPTO fragmentation x failure injections (unbuildable config: no ServerName, empty PSK without OmitEmptyPsk, two padding extensions; server alert; context cancelled at a random step, already cancelled / past its deadline before Start): trace specification over the NextEvent streams of both sides; every Start/HandleData/Close runs in its own goroutine and must return within 10 s. Race detector on. distinct = event-order signatures")
 	defer r.Finish(t)
 	n := mon.Pick(400, 30000)
 	orders := map[string]bool{}
+	hangs := 0
 	for i := 0; i < n; i++ {
 		rg := Sub("C23", i)
 		spec, _ := GenSpec(rg, GenOpts{QUIC: true, ForHandshake: true})
@@ -246,7 +256,7 @@ func TestC23(t *testing.T) {
 				listed = v.Curves
 			}
 		}
-		scenario := []string{"ok", "ok", "ok", "hrr", "no-servername", "empty-psk", "two-paddings", "server-alert", "cancel"}[i%9]
+		scenario := []string{"ok", "ok", "ok", "hrr", "no-servername", "empty-psk", "two-paddings", "server-alert", "cancel", "cancel"}[i%10]
 		ccfg := &tls.Config{ServerName: "example.test", RootCAs: peer.Fix().CA.Pool, Time: peer.FixedTime, MinVersion: tls.VersionTLS13, NextProtos: protos}
 		scfg := peer.ServerConfig()
 		scfg.MinVersion = tls.VersionTLS13
@@ -282,6 +292,12 @@ func TestC23(t *testing.T) {
 			scfg.NextProtos = []string{"verif-no-overlap"}
 		case "cancel":
 			cancelAt = 1 + rg.Intn(12)
+			switch rg.Intn(4) {
+			case 0:
+				cancelAt = 0 // already cancelled before Start
+			case 1:
+				cancelAt = -2 // deadline already exceeded before Start
+			}
 		}
 		run := driveQUIC(rg, ccfg, spec, scfg, cancelAt, rg.Intn(2) == 0)
 		sig := map[string]string{"scenario": scenario}
@@ -291,6 +307,12 @@ func TestC23(t *testing.T) {
 			sig["call"] = run.hang
 			r.Violation(sig, fmt.Sprintf("scenario %s: %s did not return within %s", scenario, run.hang, quicCallBound), rep)
 			r.Case("hang|"+scenario, true)
+			hangs++
+			if hangs >= 3 {
+				// every further hang costs the full bound: three witnesses are enough
+				r.Note("run cut short after 3 calls that did not return")
+				break
+			}
 			continue
 		}
 		orders[run.orderSig] = true
@@ -359,6 +381,9 @@ func TestC23(t *testing.T) {
 			}
 		case "cancel":
 			r.Count("cancel_runs", 1)
+			if cancelAt == 0 || cancelAt == -2 {
+				r.Count("cancelled_before_start_runs", 1)
+			}
 		}
 		r.Case(scenario+"|"+run.orderSig, true)
 		if i%37 == 0 {
